@@ -547,6 +547,12 @@ fffpy_multi_iterator* fffpy_multi_iterator_new(int narr, int axis, ...)
       err=1; break;
     }
     else {
+      /* A negative axis counts from the last one, as it does for the
+	 callers that size their output arrays with it;
+	 PyArray_IterAllButAxis would instead take it as a request for
+	 the axis of smallest stride (and overwrite it) */
+      if (axis < 0)
+	axis += PyArray_NDIM((PyArrayObject*)arr);
       multi->iters[i] = (PyArrayIterObject *)PyArray_IterAllButAxis(arr, &axis);
       Py_DECREF(arr);
     }
